@@ -1717,12 +1717,19 @@ def run_doc(case):
     import saml2
     from saml2.s_utils import UnsupportedBinding, UnknownSystemEntity
 
-    roles, _, _, call, _ = BUILDERS[case["builder"]]
-    strict = is_strict(case)
-    inst = instance(case["cfg"])
+    return run_call(instance(case["cfg"]), case["builder"], case["args"], is_strict(case), case.get("mut"))
+
+
+def run_call(inst, builder, args, strict, mut=None):
+    """One builder call on a given instance: the emitted text judged by both oracles (or the refusal)."""
+    import saml2
+    from saml2.s_utils import UnsupportedBinding, UnknownSystemEntity
+
+    call = BUILDERS[builder][3]
+    case = {"mut": mut}
     try:
         with S.clock(S.NOW0):
-            out = _nil_crash(lambda: call(inst, case["args"]))
+            out = _nil_crash(lambda: call(inst, args))
     except (saml2.SAMLError, UnsupportedBinding, UnknownSystemEntity) as e:
         # the builder refused these arguments (no endpoint for the binding, unknown entity ...): nothing emitted
         return {"refused": type(e).__name__}
@@ -1751,7 +1758,6 @@ def run_doc(case):
     if isinstance(xml, bytes):
         xml = xml.decode("utf-8")
     tree = xml_to_tree(xml)
-    mut = case.get("mut")
     if mut:
         xml = write_tree(mutate(tree, mut))
         tree = xml_to_tree(xml)
@@ -1824,8 +1830,124 @@ def run_lex(case):
     return {"ok": bool(_xs_types[name].is_valid(case["value"]))}
 
 
+# ---------------------------------------------------------------------------- histories on ONE entity
+
+
+def _sp_peer(d):
+    """abstract requester -> entity dictionary for scenario.metadata_xml"""
+    k = d["k"]
+    host = "sp.verif.example" if k == 1 else "sp%d.verif.example" % k
+    eid = S.SP_ID if k == 1 else "https://%s/sp" % host
+    keys = [("signing", "sp")] + ([("encryption", "sp_enc1")] if d.get("enc") else [])
+    if d.get("enc") == "nouse":
+        keys = [(None, "sp_enc1")]
+    ss = {"keys": keys, "acs": [(S.BINDING_POST, "https://%s/acs/post" % host, 0)] + ([(S.BINDING_REDIRECT, "https://%s/acs/redirect" % host, 1)] if d.get("acs2") else []),
+          "slo": [(S.BINDING_POST, "https://%s/slo/post" % host), (S.BINDING_SOAP, "https://%s/slo/soap" % host)] if d.get("slo", True) else []}
+    if d.get("formats"):
+        ss["nameid_formats"] = d["formats"]
+    if d.get("req_attrs"):
+        ss["attr_cs"] = [[{"name": "urn:oid:2.5.4.42", "name_format": "urn:oasis:names:tc:SAML:2.0:attrname-format:uri", "friendly_name": "givenName", "required": True}]]
+    return eid, "https://%s/acs/post" % host, {"entity_id": eid, "spsso": ss}
+
+
+def _idp_peer(d):
+    k = d["k"]
+    host = "idp.verif.example" if k == 1 else "idp%d.verif.example" % k
+    eid = S.IDP_ID if k == 1 else "https://%s/idp" % host
+    slo = []
+    for b, name in ((S.BINDING_REDIRECT, "redirect"), (S.BINDING_POST, "post"), (S.BINDING_SOAP, "soap")):
+        if name in d.get("slo", ["redirect", "post", "soap"]):
+            slo.append((b, "https://%s/slo/%s" % (host, name)))
+    ent = {"entity_id": eid, "idpsso": {"keys": [("signing", "idp_sign" if k == 1 else "member2")] + ([("encryption", "idp_enc")] if d.get("enc") else []),
+                                        "sso": [(S.BINDING_REDIRECT, "https://%s/sso/redirect" % host), (S.BINDING_POST, "https://%s/sso/post" % host)], "slo": slo}}
+    return eid, "https://%s/sso/post" % host, ent
+
+
+def _hist_args(side, step, peers):
+    """concrete arguments of one call of a history; `peers` = the CURRENT metadata state"""
+    b = step["call"]
+    cur = {p["k"]: p for p in peers}
+    k = step.get("peer", 1)
+    a = dict(step.get("args", {}))
+    if side == "idp":
+        eid, acs, _ = _sp_peer(cur.get(k, {"k": k}))
+        if b in ("authn_response", "attribute_response"):
+            a.update({"identity": {"mail": ["a@example.org"], "givenName": ["A"]}, "in_response_to": "id-h%d" % k, "destination": acs, "sp_entity_id": eid,
+                      "name_id": {"text": "subject-%d" % k, "format": NAMEID_FORMATS[0]}})
+            if b == "authn_response":
+                a["authn"] = {"class_ref": ACCR[0]}
+        elif b == "error_response":
+            a.update({"in_response_to": "id-h%d" % k, "destination": acs, "info": ["tuple", STATUS2[0], "no"]})
+        elif b == "logout_request":
+            a.update({"destination": "https://%s/slo/post" % eid.split("/")[2], "issuer_entity_id": eid, "name_id": {"text": "subject-%d" % k}})
+        a["__peer__"] = eid
+    else:
+        eid, sso, _ = _idp_peer(cur.get(k, {"k": k}))
+        if b == "authn_request":
+            a.update({"destination": sso, "binding": S.BINDING_POST})
+        elif b == "logout_request":
+            a.update({"destination": "https://%s/slo/post" % eid.split("/")[2], "issuer_entity_id": eid, "name_id": {"text": "subject-%d" % k}})
+        elif b == "attribute_query":
+            a.update({"destination": "https://%s/aa" % eid.split("/")[2], "name_id": {"text": "subject-%d" % k}})
+        elif b == "artifact_resolve":
+            a.update({"destination": "https://%s/ars" % eid.split("/")[2], "sessid": "id-hs%d" % k, "endpoint_index": 0})
+        a["__peer__"] = eid
+    if b in ("logout_response", "manage_name_id_response"):
+        a.setdefault("request_id", "id-hq%d" % k)
+        a.setdefault("bindings", [S.BINDING_POST])
+        a.setdefault("status", None)
+    return a
+
+
+def call_logout_response_from(ent, a):
+    """create_logout_response for a request issued by a given peer (the builder looks the answer's destination up in the
+    CURRENT metadata of that peer)"""
+    from saml2 import saml, samlp
+
+    req = samlp.LogoutRequest(id=a["request_id"], version="2.0", issue_instant=S.fmt_time(S.NOW0), issuer=saml.Issuer(text=a["__peer__"]),
+                              name_id=saml.NameID(text="subject-1"))
+    return ent.create_logout_response(req, bindings=a["bindings"], status=mk_status(a.get("status")), **sign_kw(a))
+
+
+def run_hist(case):
+    """every step on ONE long-lived Server / Saml2Client: create_* calls for several peers interleaved with
+    Entity.reload_metadata; every emitted document is judged as in a `doc` case."""
+    side = case["side"]
+    mk = _sp_peer if side == "idp" else _idp_peer
+    peers = case["init"]
+    ents = [mk(p)[2] for p in peers]
+    top = dict(case.get("top", {}))
+    inst = S.make_idp(S.idp_config(sp_entities=ents, **top)) if side == "idp" else S.make_sp(S.sp_config(idp_entities=ents, **top))
+    docs = []
+    for step in case["steps"]:
+        if "reload" in step:
+            peers = step["reload"]
+            if not inst.reload_metadata({"inline": [S.metadata_xml([mk(p)[2] for p in peers])]}):
+                raise RuntimeError("reload_metadata failed")
+            continue
+        a = _hist_args(side, step, peers)
+        b = step["call"]
+        peer = a["__peer__"]
+        try:
+            if b == "logout_response":
+                BUILDERS.setdefault("__logout_response_from__", (["sp", "idp"], True, None, call_logout_response_from, 0))
+                r = run_call(inst, "__logout_response_from__", a, True)
+            else:
+                a.pop("__peer__", None)
+                r = run_call(inst, b, a, True)
+        except KeyError as e:
+            # a peer that is not (or no longer) in the metadata: the store's lookup raises KeyError(entity id), nothing emitted
+            if not (e.args and e.args[0] == peer):
+                raise
+            r = {"refused": "unknown-peer"}
+        docs.append(r)
+    return {"docs": docs}
+
+
 def run_impl(case):
     op = case["op"]
+    if op == "hist":
+        return run_hist(case)
     if op == "doc":
         return run_doc(case)
     if op == "order":
@@ -1845,10 +1967,14 @@ def compare(case, impl, model):
         return model.get("valid") == impl["xsd"]
     if op == "lex":
         return model.get("ok") == impl["ok"]
+    if op == "hist":
+        return model.get("valid") == [(None if "refused" in d else d["xsd"]) for d in impl["docs"]]
     return model.get("tags") == impl["tags"]
 
 
 def nontrivial(case, impl, lean):
+    if case["op"] == "hist":
+        return any("refused" not in d for d in impl["docs"])
     return "refused" not in impl
 
 
@@ -1979,6 +2105,8 @@ def _empty_typed_value(t):
 
 
 def finding_key(case, impl, lean):
+    if case["op"] == "hist":
+        return None  # no known class lives in the histories
     if case["op"] != "doc" or case.get("mut") or "refused" in impl:
         return None
     if impl.get("emit_error"):
@@ -2001,6 +2129,11 @@ def distribution(recs):
     d = {}
     for r in recs:
         c, i = r["case"], r["impl"]
+        if c["op"] == "hist":
+            for st, dd in zip([x for x in c["steps"] if "call" in x], i["docs"]):
+                k = "hist:%s:%s:%s" % (c["side"], st["call"], "refused" if "refused" in dd else ("xsd-valid" if dd["xsd"] else "xsd-invalid"))
+                d[k] = d.get(k, 0) + 1
+            continue
         if c["op"] == "doc":
             k = "doc:%s:%s:%s" % (c["builder"], "mutant" if c.get("mut") else "output",
                                   "refused" if "refused" in i else ("xsd-valid" if i["xsd"] else "xsd-invalid"))
@@ -2494,7 +2627,79 @@ def maximal_cases():
             yield {"op": "doc", "builder": "entities_descriptor", "cfg": cfg, "args": {"n": 2, "valid_for": 24, "name": "urn:fed", "ident": "id-fed1", "sign": xmlsec}}
 
 
+def _hist_calls(side):
+    if side == "idp":
+        out = []
+        for enc in (True, False, None):
+            for sa in (False, True):
+                args = {"sign_assertion": sa, "sign_response": False}
+                if enc is not None:
+                    args["encrypt_assertion"] = enc
+                out.append(("authn_response", args))
+        out += [("authn_response", {"encrypt_assertion": True, "sign_response": True, "sign_assertion": True}),
+                ("authn_response", {"encrypt_assertion": True, "encrypted_advice_attributes": True, "pefim": True}),
+                ("authn_response", {"encrypt_assertion": True, "encrypt_assertion_self_contained": False}),
+                ("attribute_response", {}), ("error_response", {"sign": False}), ("logout_response", {"sign": False}),
+                ("logout_response", {"sign": True, "bindings": [S.BINDING_SOAP]}), ("logout_request", {"sign": False})]
+        return out
+    return [("authn_request", {"sign": False}), ("authn_request", {"sign": True}), ("logout_request", {"sign": False}),
+            ("logout_response", {"sign": False}), ("logout_response", {"sign": False, "bindings": [S.BINDING_REDIRECT]}),
+            ("logout_response", {"sign": False, "bindings": [S.BINDING_SOAP]}), ("attribute_query", {"sign": False}),
+            ("artifact_resolve", {"sign": False})]
+
+
+def hist_cases(rng, n_random):
+    """State across calls on one entity.  (1) complete: for every ordered pair of requester-metadata states
+    (encryption key of SP1 present / absent / published without `use`, x SP2 alike) the history
+    call(SP1) . call(SP2) . reload . call(SP1) . call(SP2) . call(SP1) with encryption asked for - both orders of
+    priming; (2) random histories on a Server and on a Saml2Client: 6-12 steps, calls for two or three peers interleaved
+    with reloads that add / remove / change the peers' keys, endpoints, name-id formats and requested attributes."""
+    encs = [True, False, "nouse"]
+    states = [[{"k": 1, "enc": e1}, {"k": 2, "enc": e2}] for e1 in encs for e2 in encs]
+    ask = {"encrypt_assertion": True, "sign_response": False, "sign_assertion": False}
+    for i, a in enumerate(states):
+        for j, b in enumerate(states):
+            if i == j:
+                continue
+            for extra in ({}, {"sign_assertion": True}):
+                args = dict(ask, **extra)
+                yield {"op": "hist", "side": "idp", "init": a, "steps": [
+                    {"call": "authn_response", "peer": 1, "args": args}, {"call": "authn_response", "peer": 2, "args": args}, {"reload": b},
+                    {"call": "authn_response", "peer": 1, "args": args}, {"call": "authn_response", "peer": 2, "args": args},
+                    {"call": "authn_response", "peer": 1, "args": dict(args, encrypt_assertion=False)}]}
+    for n in range(n_random):
+        side = "idp" if n % 3 else "sp"
+        calls = _hist_calls(side)
+
+        def state():
+            ps = []
+            for k in (1, 2, 3):
+                if k == 3 and rng.random() < 0.6:
+                    continue
+                if side == "idp":
+                    ps.append({"k": k, "enc": rng.choice(encs), "acs2": rng.random() < 0.5, "slo": rng.random() < 0.7,
+                               "formats": rng.choice([None, NAMEID_FORMATS[:1], NAMEID_FORMATS[:3]]), "req_attrs": rng.random() < 0.4})
+                else:
+                    ps.append({"k": k, "enc": rng.random() < 0.5, "slo": rng.sample(["redirect", "post", "soap"], rng.randint(0, 3))})
+            return ps
+
+        init = state()
+        steps = []
+        for _ in range(rng.randint(6, 12)):
+            if rng.random() < 0.3:
+                steps.append({"reload": state()})
+            else:
+                b, args = rng.choice(calls)
+                steps.append({"call": b, "peer": rng.choice([1, 1, 2, 2, 3]), "args": dict(args)})
+        top = {}
+        if side == "idp" and rng.random() < 0.3:
+            top = {"idp": {"encrypt_assertion": True}}
+        yield {"op": "hist", "side": side, "init": init, "steps": steps, "top": top}
+
+
 def gen_cases(rng, tier):
+    for c in hist_cases(rng, 40 if tier == "quick" else 600):
+        yield c
     for c in maximal_cases():
         yield c
     for c in enc_grid():
@@ -2518,6 +2723,13 @@ def gen_cases(rng, tier):
 
 
 def shrink(case):
+    if case["op"] == "hist":
+        for i in range(len(case["steps"])):
+            c = copy.deepcopy(case)
+            c["steps"].pop(i)
+            if any("call" in s for s in c["steps"]):
+                yield c
+        return
     if case["op"] != "doc":
         return
     for k in list(case["args"]):
